@@ -287,7 +287,10 @@ def execute(case):
                     except KeyError:
                         bad = [('foreign-vertex', '')]
                     if bad:
-                        V('validity', [method, bad[0][0], 'seen-in-factorize'], f'{bad[0][1]}; n={len(verts)} edges={es}', prop='C10')
+                        # an invalid decomposition is C10's matter; here it is only counted, so that C05's own clauses
+                        # (inlining, no node or edge lost) get to judge what factorize_rule makes of it
+                        c.inc('probe.invalid-decomposition-seen')
+                        return td
                     if method in ('acb', 'quickbb') and 0 < len(verts) <= 9:
                         tw = TW.treewidth(len(verts), es)
                         if TW.width(tdi) != tw:
